@@ -109,7 +109,13 @@ func init() {
 			}
 		}
 		bothRan := map[string]int{}
+		seenGN := map[string]bool{}
 		check := func(c *x509.Certificate, what string, detail map[string]interface{}) {
+			// the seventeen general-name lints against their full model (Kernels/GeneralNames.v)
+			if term, tag, ok := gnCase(c); ok && !seenGN[term] {
+				seenGN[term] = true
+				out.Add("gn", Case{Coq: term, Tag: tag, Desc: map[string]interface{}{"object": what, "ian_dns": c.IANDNSNames}})
+			}
 			rs := zlint.LintCertificate(c).Results
 			for _, p := range lintPairs {
 				ra, rb := rs[p.a], rs[p.b]
